@@ -243,6 +243,7 @@ func (c *Check) freshDecodeTargets(rule string) {
 func commonPreconditions(c *Check) {
 	c.storeOnlyState(c.Prop + ".S1")
 	c.freshDecodeTargets(c.Prop + ".S2")
+	c.loopVarAddresses(c.Prop + ".S3")
 }
 
 // schemaPredicate: the validator fn accepts a document only if it passed JSON-schema validation (the schema
@@ -446,4 +447,107 @@ func (c *Check) paramGettersExact(rule string, keys ...string) {
 			"the getter returns the stored parameter "+key+" as read by Subspace.Get on every path"+condStr(why != "", ": "+why))
 	}
 	c.req(n == len(keys), rule, "parameter-getters", token.NoPos, fmt.Sprintf("%d of %d parameter getters found", n, len(keys)))
+}
+
+// loopVarAddresses (S3): the module is built with per-loop (not per-iteration) loop variables (go.mod: go 1.14),
+// so a pointer to a range / for-clause variable that is kept beyond the iteration — assigned to a variable
+// declared outside the loop, stored, appended, returned or captured — aliases the next iteration's value.
+func (c *Check) loopVarAddresses(rule string) {
+	reach := c.entryReachable()
+	var fs []*Func
+	for f := range reach {
+		if f.isHandWritten() && f.Body != nil && (f.pkgName() == "keeper" || f.pkgName() == "service" || f.pkgName() == "types") {
+			fs = append(fs, f)
+		}
+	}
+	sort.Slice(fs, func(i, j int) bool { return fs[i].Name < fs[j].Name })
+	nLoops, nAddr := 0, 0
+	for _, f := range fs {
+		info := f.Pkg.TypesInfo
+		var visit func(nd ast.Node, loopVars map[*types.Var]ast.Node)
+		visit = func(nd ast.Node, loopVars map[*types.Var]ast.Node) {
+			var stack []ast.Node
+			ast.Inspect(nd, func(x ast.Node) bool {
+				if x == nil {
+					stack = stack[:len(stack)-1]
+					return true
+				}
+				stack = append(stack, x)
+				switch s := x.(type) {
+				case *ast.FuncLit:
+					stack = stack[:len(stack)-1]
+					return false
+				case *ast.RangeStmt:
+					nLoops++
+					lv := map[*types.Var]ast.Node{}
+					for k, v := range loopVars {
+						lv[k] = v
+					}
+					if s.Tok == token.DEFINE {
+						for _, e := range []ast.Expr{s.Key, s.Value} {
+							if id, ok := e.(*ast.Ident); ok {
+								if v, ok := info.Defs[id].(*types.Var); ok {
+									lv[v] = s
+								}
+							}
+						}
+					}
+					visit(s.Body, lv)
+					stack = stack[:len(stack)-1]
+					return false
+				case *ast.ForStmt:
+					nLoops++
+					lv := map[*types.Var]ast.Node{}
+					for k, v := range loopVars {
+						lv[k] = v
+					}
+					if as, ok := s.Init.(*ast.AssignStmt); ok && as.Tok == token.DEFINE {
+						for _, l := range as.Lhs {
+							if id, ok := l.(*ast.Ident); ok {
+								if v, ok := info.Defs[id].(*types.Var); ok {
+									lv[v] = s
+								}
+							}
+						}
+					}
+					visit(s.Body, lv)
+					stack = stack[:len(stack)-1]
+					return false
+				case *ast.UnaryExpr:
+					if s.Op != token.AND {
+						return true
+					}
+					id, ok := ast.Unparen(s.X).(*ast.Ident)
+					if !ok {
+						return true
+					}
+					v, ok := info.Uses[id].(*types.Var)
+					if !ok || loopVars[v] == nil {
+						return true
+					}
+					nAddr++
+					// allowed: the pointer is an argument of a call that is an expression statement or an assignment's
+					// right-hand side (decode / encode into or from the variable within the iteration)
+					okUse := false
+					if len(stack) >= 2 {
+						if call, isCall := stack[len(stack)-2].(*ast.CallExpr); isCall {
+							for _, a := range call.Args {
+								if ast.Unparen(a) == ast.Expr(s) {
+									okUse = true
+								}
+							}
+							if b, isB := typeutil.Callee(info, call).(*types.Builtin); isB && b.Name() == "append" {
+								okUse = false
+							}
+						}
+					}
+					c.req(okUse, rule, unitConstruct(f, "loop-variable-address:"+v.Name()), s.Pos(),
+						"the address of loop variable "+v.Name()+" is used only as a call argument within its iteration (kept pointers alias the following iterations)")
+				}
+				return true
+			})
+		}
+		visit(f.Body, map[*types.Var]ast.Node{})
+	}
+	c.req(nLoops >= 20, rule, "loops-scanned", token.NoPos, fmt.Sprintf("%d loops scanned, %d addresses of loop variables", nLoops, nAddr))
 }
